@@ -442,9 +442,38 @@ func init() {
 		x := e.bigGet(st, args[0])
 		if x.Op != OpConst {
 			// digits of a symbolic integer: an opaque string that is an injective function of the value
-			return ret1(st, Tuple{e.symStringBytes(st, e.opaqueString("bigstr", x).(SymStr)), Iface{}})
+			ss := e.opaqueString("bigstr", x).(SymStr)
+			if e.bigstrBack == nil {
+				e.bigstrBack = map[int]*Term{}
+			}
+			e.bigstrBack[ss.ID.id] = x
+			return ret1(st, Tuple{e.symStringBytes(st, ss), Iface{}})
 		}
 		return ret1(st, Tuple{e.stringToBytes(st, x.Val.String()), Iface{}})
+	})
+	// the inverse of MarshalText: concrete digits are parsed, the opaque digit string of a symbolic integer gives it back
+	R("(*math/big.Int).UnmarshalText", func(e *Exec, st *State, fn *ssa.Function, args []Value, depth int) []Outcome {
+		sl, ok := args[1].(Slice)
+		if !ok {
+			unsupported("big.Int.UnmarshalText of %T", args[1])
+		}
+		if ss, ok := e.symBytesString(st, sl); ok {
+			if x, ok := e.bigstrBack[ss.(SymStr).ID.id]; ok {
+				e.bigSet(st, args[0], x)
+				return ret1(st, Iface{})
+			}
+			unsupported("big.Int.UnmarshalText of an opaque string that is not a rendered integer")
+		}
+		str, ok := e.bytesToString(st, sl)
+		if !ok {
+			unsupported("big.Int.UnmarshalText of symbolic bytes")
+		}
+		v, ok := new(big.Int).SetString(str, 0)
+		if !ok {
+			return ret1(st, e.makeError(st, "math/big: cannot unmarshal "+str+" into a *big.Int"))
+		}
+		e.bigSet(st, args[0], e.TS.Int(v))
+		return ret1(st, Iface{})
 	})
 }
 
